@@ -96,6 +96,10 @@ func (s *rrSegFetcher) doCheck() {
 		if state.complete {
 			// lazy remove completed streams
 			s.remove(state)
+			s.rrIndex-- // the following stream moved into this slot
+			if state == first {
+				first = nil // the circle cannot close on a stream that is gone
+			}
 			continue
 		}
 
